@@ -320,6 +320,9 @@ pub0_sock_send(void *arg, nni_aio *aio)
 	nni_stat_inc(&sock->stat_tx_direct, direct);
 #endif
 	nni_mtx_unlock(&sock->mtx);
+	// The message now belongs to the pipes (or is gone); the caller's
+	// aio must not keep a pointer to it.
+	nni_aio_set_msg(aio, NULL);
 	nng_msg_free(msg);
 	nni_aio_finish(aio, 0, len);
 }
